@@ -82,9 +82,20 @@ func runC14(r *simrun.Run) {
 	// that path has a recorded genuine defect (see known_findings.json), so it
 	// is kept rare, and the call is labelled so that the finding is
 	// recognisable.
-	w.exoticLink = w.exotic || t.Bool(1, 10)
+	w.exoticLink = t.Bool(1, 10)
+	if r.Prop == "C13" {
+		// The recorded finding on that path is C14's; C13 runs stay off it.
+		w.exoticLink = false
+	}
+	w.exoticLink = w.exoticLink || w.exotic
 	w.build()
 	maxOps := 4 + t.Choice(12)
+	if r.Prop == "C13" {
+		maxOps += 10
+		if nCallers < 3 {
+			nCallers = 3
+		}
+	}
 	if r.Tier == "thorough" {
 		maxOps *= 2
 	}
@@ -387,6 +398,8 @@ type reporter14 struct {
 	w     *c14
 	max   int
 	n     int
+	last  uint64
+	what  string
 	dirs  []virtual.Directory
 	leafs []virtual.Leaf
 }
@@ -395,6 +408,17 @@ func (r *reporter14) ReportEntry(nextCookie uint64, name path.Component, child v
 	if r.n >= r.max {
 		return false
 	}
+	// Within one listing call entries come in cookie order, whatever other
+	// callers do meanwhile: a cookie that does not increase means entries are
+	// being reported again (C13: nothing is reported twice). Only judged when
+	// the run is made on behalf of C13.
+	if r.w.e.r.Prop == "C13" {
+		if r.n > 0 && nextCookie <= r.last {
+			r.w.k.Violate("C13/readdir-duplicate", fmt.Sprintf("%s: entry %q was reported with resume cookie %d after an entry with resume cookie %d: the listing went backwards and reports entries twice", r.what, name.String(), nextCookie, r.last))
+		}
+		r.w.k.Probe("c13_concurrent_listing_entry")
+	}
+	r.last = nextCookie
 	r.n++
 	d, l := child.GetPair()
 	if d != nil {
@@ -426,6 +450,11 @@ func (c *caller) call() {
 	weights := []int{20, 8, 5, 6, 4, 8, 8, 8, 6, 6, 3, 4, 6, 3, 4, 2, 0}
 	if w.e.cfg.namedAttrs {
 		weights[16] = 4
+	}
+	if w.e.r.Prop == "C13" {
+		// Listings racing renames and removals are what this
+		// configuration is for.
+		weights[7] = 40
 	}
 	switch t.Weighted(weights) {
 	case 0:
@@ -499,6 +528,7 @@ func (c *caller) call() {
 	case 7:
 		rep := &reporter14{w: w, max: pick(t, []int{100, 1, 2})}
 		cookie := uint64(t.Choice(3)) * 2
+		rep.what = fmt.Sprintf("VirtualReadDir(%s, cookie=%d, mask=%#x)", dn, cookie, mask)
 		c.begin("VirtualReadDir(%s, cookie=%d, mask=%#x, page=%d)", dn, cookie, mask, rep.max)
 		st := d.VirtualReadDir(ctx, cookie, mask, rep)
 		c.end("VirtualReadDir", stName(st))
